@@ -253,6 +253,19 @@ def resolve_attr(text: str, path: list[str]) -> tuple[Res | None, dict]:
     node = dec.shape.target
     value = None
     for k, seg in enumerate(path):
+        if seg == "->":
+            # dereference: the value reached so far is a name; continue inside the set literal it denotes
+            if value is None or _name_of_variable(value) is None:
+                return None, info
+            rv = Resolver(dec.doc)
+            r0 = rv.resolve_value_node(value)
+            if r0.kind != "value" or r0.extent is None:
+                return None, info
+            node = rv._node_at(r0.extent)
+            if node is None or node.type not in reader.SET_TYPES:
+                return None, info
+            value = None
+            continue
         found = None
         for b in _bindings_of(node):
             if b.type == "binding":
@@ -262,7 +275,9 @@ def resolve_attr(text: str, path: list[str]) -> tuple[Res | None, dict]:
                     found = b.child_by_field_name("expression")
         if found is None:
             return None, info
-        if k < len(path) - 1:
+        if k < len(path) - 1 and path[k + 1] == "->":
+            value = found
+        elif k < len(path) - 1:
             if found.type not in reader.SET_TYPES:
                 return None, info
             node = found
